@@ -31,7 +31,8 @@ def session_configs(maxcalls=1, timeout=1200):
 
 
 def settings_of(cfg, rich=False):
-    return M.feature_settings(cfg["sl"], cfg["nldf"], cfg["sdmx"], level=SLLEVEL[cfg["sl"]], rich=rich)
+    # rho_mult (what multiplies the density before it is convolved: one | expnt) is a driver-side dimension of the session
+    return M.feature_settings(cfg["sl"], cfg["nldf"], cfg["sdmx"], level=SLLEVEL[cfg["sl"]], rich=rich, rho_mult=cfg.get("mult", "one"))
 
 
 def make_evaluators(kind, n1, rng, nctrl=10, scale=0.05):
